@@ -161,6 +161,26 @@ func typeFuncName(f *types.Func) string {
 	if f == nil {
 		return "<nil>"
 	}
+	fname := f.Name()
+	if len(renamedFuncs) > 0 && f.Pkg() != nil && (f.Pkg().Path() == modulePath || strings.HasPrefix(f.Pkg().Path(), modulePath+"/")) {
+		dir := strings.TrimPrefix(strings.TrimPrefix(f.Pkg().Path(), modulePath), "/")
+		if dir == "" {
+			dir = "."
+		}
+		recv := ""
+		if sig, _ := f.Type().(*types.Signature); sig != nil && sig.Recv() != nil {
+			t := sig.Recv().Type()
+			if pt, ok := t.(*types.Pointer); ok {
+				t = pt.Elem()
+			}
+			if n, ok := t.(*types.Named); ok {
+				recv = n.Obj().Name()
+			}
+		}
+		if old, ok := renamedFuncs[dir+":"+recv+"."+fname]; ok {
+			fname = old
+		}
+	}
 	pk := ""
 	if f.Pkg() != nil {
 		pk = f.Pkg().Name() + "."
@@ -186,11 +206,11 @@ func typeFuncName(f *types.Func) string {
 			name = types.TypeString(t, func(*types.Package) string { return "" })
 		}
 		if ptr {
-			return pk + "(*" + name + ")." + f.Name()
+			return pk + "(*" + name + ")." + fname
 		}
-		return pk + name + "." + f.Name()
+		return pk + name + "." + fname
 	}
-	return pk + f.Name()
+	return pk + fname
 }
 
 // shortFn renders an SSA function as "pkgname.(*T).m", "pkgname.f", "pkgname.f$1".
